@@ -76,7 +76,9 @@ pub fn boundary_pool(full: bool) -> Vec<Value> {
     let core_s = [
         "", " ", "a", "A", " a ", "abc", "b", "ab", "1", "+5", "-0", "i1", "1.5", "1e5", "inf", "NaN",
         "2015-07-30T03:26:13Z", "ß", "\t x\n", "79228162514264337593543950336",
-        "170141183460469231731687303715884105728",
+        "170141183460469231731687303715884105728", "-170141183460469231731687303715884105728",
+        "170141183460469231731687303715884105727", "-170141183460469231731687303715884105729", "-9223372036854775808",
+        "9223372036854775808", "18446744073709551615", "-0x10", "0xff", "0b1", "1e3", "-1e3",
     ];
     let more_s = [
         " 5", "5 ", "1_000", "0x5", "５", ".5", "5.", "Inf", "nan", "-", "+", "--5", "2015-07-30 03:26:13Z",
@@ -140,6 +142,8 @@ pub fn boundary_pool(full: bool) -> Vec<Value> {
     p.push(map(&[]));
     p.push(map(&[("a", Value::Int(1))]));
     p.push(map(&[("a", Value::None), ("b", Value::Int(2))]));
+    // keys that differ only by surrounding white space, case or a look-alike: nothing may trim, fold or re-parse a key
+    p.push(map(&[("a", Value::Int(1)), (" a", Value::Int(2)), ("a ", Value::Int(3)), ("\ta\n", Value::Int(4)), ("A", Value::Int(5)), ("1", Value::Int(6)), ("01", Value::Int(7)), (" 1", Value::Int(8)), ("2024", Value::Int(9))]));
     // large values: anything that abridges, truncates or pages an operand or an error payload shows only on these
     p.push(Value::String("x".repeat(300)));
     p.push(Value::String(format!("a{}", "é日😀".repeat(60))));
